@@ -64,6 +64,10 @@ func genC10(t *rapid.T) C10Case {
 		hot = map[string]bool{"obj": true, "cv": true, "um": true, "Base": true, "T": true}
 	}
 	c.Files = []WSFile{{Path: "main.lua", Text: text}, {Path: "util.lua", Text: "G1 = 1\nfunction gfun(a) return a end\nGtab = { x = 1 }\n"}}
+	// closed files that change on disk during the flood (one watched-files notification for all of them)
+	for i := 1; i <= 8; i++ {
+		c.Files = append(c.Files, WSFile{Path: fmt.Sprintf("aux/a%d.lua", i), Text: fmt.Sprintf("Aux%d = 0\nprint(Aux%d, G1)\n", i, i)})
+	}
 	cur := text
 	n := rapid.IntRange(20, 80).Draw(t, "nmsgs")
 	for i := 0; i < n; i++ {
@@ -127,7 +131,7 @@ func genC10(t *rapid.T) C10Case {
 		case k == 8:
 			c.Msgs = append(c.Msgs, C10Msg{Kind: "save"})
 		default:
-			c.Msgs = append(c.Msgs, C10Msg{Kind: rapid.SampledFrom([]string{"config", "reopen"}).Draw(t, "other")})
+			c.Msgs = append(c.Msgs, C10Msg{Kind: rapid.SampledFrom([]string{"config", "reopen", "watched", "watched"}).Draw(t, "other"), Text: fmt.Sprint(i)})
 		}
 	}
 	return c
@@ -136,7 +140,7 @@ func genC10(t *rapid.T) C10Case {
 func (c *C10Case) script(flood bool) (*proto.Request, []int) {
 	ws := Workspace{Files: c.Files}
 	req := &proto.Request{Cmd: "session", Files: ws.protoFiles(), InitOptions: harness.J(harness.AllOn()), CallTimeoutMs: 60000}
-	req.Steps = ws.openAll()
+	req.Steps = []proto.Step{harness.DidOpen(c.Files[0].Path, c.Files[0].Text), harness.DidOpen(c.Files[1].Path, c.Files[1].Text)}
 	cur := c.Files[0].Text
 	version := 1
 	var reqSteps []int
@@ -174,6 +178,19 @@ func (c *C10Case) script(flood bool) (*proto.Request, []int) {
 			}
 			st := proto.Step{Op: notifyOp, Method: "workspace/didChangeConfiguration", Params: harness.J(harness.M{"settings": harness.M{"luahelper": harness.M{
 				"base": harness.M{"ReferenceMaxNum": 3000, "ReferenceIncudeDefine": true}, "Warn": warn}}})}
+			req.Steps = append(req.Steps, st)
+		case "watched":
+			// "save all" / a checkout: several closed files change on disk, one notification names them all
+			if flood {
+				req.Steps = append(req.Steps, proto.Step{Op: "drain"})
+			}
+			var evs [][2]interface{}
+			for _, f := range c.Files[2:] {
+				req.Steps = append(req.Steps, proto.Step{Op: "write", Path: f.Path, Data: []byte(f.Text + "-- rev " + m.Text + "\nAuxRev = " + m.Text + "\n")})
+				evs = append(evs, [2]interface{}{f.Path, 2})
+			}
+			st := harness.Watched(evs...)
+			st.Op = notifyOp
 			req.Steps = append(req.Steps, st)
 		case "reopen":
 			a, b := harness.DidClose("main.lua"), harness.DidOpen("main.lua", cur)
